@@ -257,6 +257,13 @@ def fold(eng, ver, name):
                 eng.facts.used.add("L12-count")
                 eng.facts.add(z3.Implies(oval, z3.And(cnt >= 0, cnt <= fold(eng, ver, "size") if name != "size" else True,
                                                       bd == z3.RealVal(FOLDS[other].const) * z3.ToReal(cnt))))
+    if name.startswith("valsin@"):
+        lo, hi = F.param
+        for other, oval in list(ver.cache.items()):
+            if isinstance(other, str) and other != name and other.startswith("valsin@"):
+                lo2, hi2 = FOLDS[other].param
+                eng.facts.add(z3.Implies(z3.And(oval, lo <= lo2, hi2 <= hi), r))
+                eng.facts.add(z3.Implies(z3.And(r, lo2 <= lo, hi <= hi2), oval))
     if name.startswith("ancbelow@"):
         # monotone in the bound (same version): below n and n <= m  ==>  below m
         n_ = F.param
@@ -574,3 +581,25 @@ def within_at_witnesses(eng, ver, arr, cond):
     """under cond every key of ver has its labels in arr: instantiated at the witness keys (first label)"""
     wit_hook(eng, "khooks", lambda k: eng.facts.add(
         z3.Implies(z3.And(cond, z3.Select(ver.dom, k), z3.Length(k) > 0), z3.Select(arr, k[0]))))
+
+
+def valsin_fold(eng, lo, hi):
+    """parametric all-fold on a table key -> integer: every stored value v satisfies lo <= v < hi"""
+    name = "valsin@%d,%d" % (lo.get_id(), hi.get_id())
+    if name not in FOLDS:
+        F = Fold(name, "all", T.Bool, lambda e, k, v, lo=lo, hi=hi: z3.And(lo <= v, v < hi), T.Key)
+        F.param = (lo, hi)
+        FOLDS[name] = F
+    return name
+
+
+def valsin_of(eng, ver, lo, hi):
+    name = valsin_fold(eng, lo, hi)
+    r = fold(eng, ver, name)
+    # monotone in the bounds (same version): [lo, hi) inside [lo', hi')
+    for other, oval in list(ver.cache.items()):
+        if isinstance(other, str) and other != name and other.startswith("valsin@"):
+            lo2, hi2 = FOLDS[other].param
+            eng.facts.add(z3.Implies(z3.And(oval, lo <= lo2, hi2 <= hi), r))
+            eng.facts.add(z3.Implies(z3.And(r, lo2 <= lo, hi <= hi2), oval))
+    return r
